@@ -506,6 +506,7 @@ pub enum Op {
     Clone01,      // h1 := h0.clone()
     Neg(u8),      // h_i := h_i.negate()
     Add(u8, u8),  // h_i := h_i.clone() + &h_j
+    Dbl(u8),      // h_i.double_in_place()  (in-place mutation: any cached encoding must go)
 }
 
 #[derive(Clone, Copy, PartialEq, Eq, Hash, Debug)]
@@ -604,6 +605,10 @@ pub fn replay_history(dc: &Decaf, init: Init, val: usize, ops: &[Op]) -> Replay 
                 Op::Add(i, j) => {
                     hs[i as usize] = hs[i as usize].clone() + &hs[j as usize];
                 }
+                Op::Dbl(i) => {
+                    use ark_r1cs_std::groups::CurveVar;
+                    hs[i as usize].double_in_place()?;
+                }
             }
             snaps.push(snapshot(&cs, &hs));
         }
@@ -638,6 +643,10 @@ fn model_step(tags: &mut Vec<u8>, op: Op) {
         }
         Op::Add(i, j) => {
             tags[j as usize] = force_el(tags[j as usize]);
+            tags[i as usize] = 1;
+        }
+        Op::Dbl(i) => {
+            // the variable now denotes 2P: element only, a cached encoding of P must be dropped
             tags[i as usize] = 1;
         }
     }
@@ -730,12 +739,24 @@ impl LazyModel {
             if noop && (after.n_constraints != before.n_constraints || after.n_witness != before.n_witness) {
                 return (rp.clone_light(), Some(("re-emission", format!("repeated forcing {:?} added {} constraints / {} variables", op, after.n_constraints - before.n_constraints, after.n_witness - before.n_witness))));
             }
+            // whenever both halves of a handle are materialised they must denote the same element:
+            // cached encoding == native encoding of the assigned coordinates (valid values only)
+            if init_valid(init, val) {
+                for h in 0..after.tags.len() {
+                    if let (Some(e), Some((x, y))) = (after.encs[h], after.xys[h]) {
+                        let el = Element::verif_from_coords_unchecked(x, y, Fq::from(1u64), x * y);
+                        if el.vartime_compress_to_field() != e {
+                            return (rp.clone_light(), Some(("stale-half", format!("after {:?}: handle {h} holds an encoding that is not the encoding of its element", &hist[..=k]))));
+                        }
+                    }
+                }
+            }
             if after.n_constraints < before.n_constraints {
                 return (rp.clone_light(), Some(("constraints-removed", format!("{:?}", op))));
             }
             // values of handles that existed before and were not replaced must be unchanged
             let replaced: Option<u8> = match op {
-                Op::Neg(i) | Op::Add(i, _) => Some(*i),
+                Op::Neg(i) | Op::Add(i, _) | Op::Dbl(i) => Some(*i),
                 _ => None,
             };
             for h in 0..before.tags.len() {
@@ -796,6 +817,7 @@ impl Model for LazyModel {
             out.push(Op::Val(i));
             out.push(Op::Cs(i));
             out.push(Op::Neg(i));
+            out.push(Op::Dbl(i));
             for j in 0..n {
                 out.push(Op::IsEq(i, j));
                 out.push(Op::Add(i, j));
@@ -849,7 +871,7 @@ fn lazy(ctx: &Arc<Ctx>) {
         });
     }
     r.sample("E2/lazy-history", || json!({"init": "WitnessFq", "value": "generator", "history": ["Enc(0)", "Val(0)", "Clone01", "IsEq(0, 1)"]}));
-    r.rule(format!("E2/C13-lazy[ark]: all operation histories of length <= {depth} over {{compress_to_field, value, cs, negate, is_eq, +, clone}} on <= 2 handles from 4 allocation kinds x 3 values; a state is a history replayed on a fresh ConstraintSystem; dedup key = (lazy tags via hook H3, #constraints, #witnesses, digest of the finalised A/B/C rows, digest of assigned values, depth)"));
+    r.rule(format!("E2/C13-lazy[ark]: all operation histories of length <= {depth} over {{compress_to_field, value, cs, negate, double_in_place, is_eq, +, clone}} on <= 2 handles from 4 allocation kinds x 3 values; a state is a history replayed on a fresh ConstraintSystem; dedup key = (lazy tags via hook H3, #constraints, #witnesses, digest of the finalised A/B/C rows, digest of assigned values, depth)"));
 }
 
 pub fn parse_op(s: &str) -> Option<Op> {
@@ -866,6 +888,8 @@ pub fn parse_op(s: &str) -> Option<Op> {
         Op::Clone01
     } else if s.starts_with("Neg") {
         Op::Neg(nums[0])
+    } else if s.starts_with("Dbl") {
+        Op::Dbl(nums[0])
     } else if s.starts_with("Add") {
         Op::Add(nums[0], nums[1])
     } else {
